@@ -476,3 +476,89 @@ example (m : Mode) : ∃ n', (((demoFair m).st n').done.map (·.task)).count ⟨
 example (m : Mode) : (((demoFair m).st 16).done.map (·.task)).count ⟨1, 5⟩ = 1 := by cases m <;> decide
 
 end KcpVerif.Props
+
+/-! ### liveness under weak fairness per goroutine, and without idling -/
+namespace KcpVerif.Props
+open KcpVerif KcpVerif.Sched
+
+/-- once nothing is pending and no `Put` follows, nothing is pending ever after and every
+    submitted task has run exactly once -/
+theorem C17_quiescent_stays {m : Mode} {k : Nat} {t0 : Time} {st : Nat → State} {lab : Nat → Label}
+    (hrun : IsRun m k t0 st lab) {N0 N2 : Nat} (hN0 : ∀ n, N0 ≤ n → ∀ id ts, lab n ≠ .put id ts)
+    (hN2 : N0 ≤ N2) (hq : pendingTasks (st N2) = []) (n : Nat) (hn : N2 ≤ n) :
+    pendingTasks (st n) = [] ∧ ∀ t, t ∈ (st n).sub → ((st n).done.map (·.task)).count t = 1 := by
+  have hpend : pendingTasks (st n) = [] := by
+    have hl2 := pending_length (hrun.reach N2)
+    have hln := pending_length (hrun.reach n)
+    rw [hrun.sub_fixed hN0 (Nat.le_trans hN2 hn), ← hrun.sub_fixed hN0 hN2] at hln
+    have hdone : (st N2).done.length ≤ (st n).done.length := by
+      clear hln
+      induction hn with
+      | refl => exact Nat.le_refl _
+      | step hle ih =>
+        exact Nat.le_trans ih (step_noput (hrun.next _) (hN0 _ (Nat.le_trans hN2 hle))).2
+    rw [hq] at hl2
+    simp only [List.length_nil, Nat.zero_add] at hl2
+    exact List.eq_nil_of_length_eq_zero (by omega)
+  refine ⟨hpend, fun t ht => ?_⟩
+  have hone := C17_exactly_one_place (hrun.reach n) t ht
+  simpa [hpend] using hone
+
+/-- an infinite run that is weakly fair **per goroutine**: a producer inside `Put`, the prepend
+    goroutine, each worker, and the runtime for each worker's timer (`Owner`), eventually takes a
+    step if it has an enabled step at every moment from some point on; submissions eventually
+    pause; time diverges -/
+structure GoFairRun (m : Mode) (k : Nat) (t0 : Time) where
+  st : Nat → State
+  lab : Nat → Label
+  start : st 0 = init k t0
+  next : ∀ n, step m (st n) (lab n) = some (st (n + 1))
+  putsPause : ∃ N, ∀ n, N ≤ n → ∀ id ts, lab n ≠ .put id ts
+  fair : ∀ g N, (∀ n, N ≤ n → ∃ l, l.owner = some g ∧ (step m (st n) l).isSome) →
+    ∃ n, N ≤ n ∧ (lab n).owner = some g
+  timeDiverges : ∀ T, ∃ n, T ≤ (st n).now
+
+/-- **exactly once under goroutine fairness** (both timer modes, any `k ≥ 1`): from some point on
+    nothing is pending and every submitted task has run exactly once -/
+theorem C17_exactly_once_goroutine_fair {m : Mode} {k : Nat} {t0 : Time} (hk : 0 < k)
+    (r : GoFairRun m k t0) :
+    ∃ N, ∀ n, N ≤ n → pendingTasks (r.st n) = [] ∧
+      ∀ t, t ∈ (r.st n).sub → ((r.st n).done.map (·.task)).count t = 1 := by
+  obtain ⟨N0, hN0⟩ := r.putsPause
+  have hrun : IsRun m k t0 r.st r.lab := ⟨r.start, r.next⟩
+  obtain ⟨N2, hN2, hq⟩ := hrun.eventually_quiescent_go hk hN0 r.fair r.timeDiverges
+  exact ⟨N2, C17_quiescent_stays hrun hN0 hN2 hq⟩
+
+/-- **exactly once for every run that does not idle for ever** — the weakest scheduling assumption
+    the argument needs: whenever some action of the scheduler or of the runtime stays enabled for
+    ever, SOME action other than the passing of time is eventually taken.  (Implied by either
+    notion of weak fairness above; it is what "the Go scheduler runs runnable goroutines and the
+    runtime runs due timers" amounts to.)  Submissions eventually pause, time diverges. -/
+theorem C17_eventually_done {m : Mode} {k : Nat} {t0 : Time} (hk : 0 < k) {st : Nat → State}
+    {lab : Nat → Label} (hrun : IsRun m k t0 st lab) {N0 : Nat}
+    (hpause : ∀ n, N0 ≤ n → ∀ id ts, lab n ≠ .put id ts)
+    (hprog : ∀ l, (∀ id ts, l ≠ .put id ts) → (∀ d, l ≠ .tick d) →
+      ∀ N, (∀ n, N ≤ n → (step m (st n) l).isSome) → ∃ n, N ≤ n ∧ ∀ d, lab n ≠ .tick d)
+    (htime : ∀ T, ∃ n, T ≤ (st n).now) :
+    ∃ N, ∀ n, N ≤ n → pendingTasks (st n) = [] ∧
+      ∀ t, t ∈ (st n).sub → ((st n).done.map (·.task)).count t = 1 := by
+  obtain ⟨N2, hN2, hq⟩ := hrun.eventually_quiescent' hk hpause hprog htime
+  exact ⟨N2, C17_quiescent_stays hrun hpause hN2 hq⟩
+
+/-- `demoFair` is also fair per goroutine (non-vacuity of `C17_exactly_once_goroutine_fair`) -/
+def demoGoFair (m : Mode) : GoFairRun m 1 0 where
+  st := fairSt m
+  lab := fairLab
+  start := (demoFair m).start
+  next := (demoFair m).next
+  putsPause := (demoFair m).putsPause
+  fair := by
+    intro g N hen
+    obtain ⟨l, hg, hl⟩ := hen (max N 17) (Nat.le_max_left _ _)
+    have hp : ∀ id ts, l ≠ .put id ts := fun id ts he => by rw [he] at hg; cases hg
+    have ht : ∀ d, l ≠ .tick d := fun d he => by rw [he] at hg; cases hg
+    rw [fairSt_tail m _ (Nat.le_max_right _ _), fairFin_dead m _ l hp ht] at hl
+    cases hl
+  timeDiverges := (demoFair m).timeDiverges
+
+end KcpVerif.Props
